@@ -29,6 +29,8 @@ class Cz:
 
     def ev(self, e, Event):
         data = {"v": e["d"]} if e["d"] != "c" else {"v": "a", "extra": [1]}      # "c" equals "a" except for one more key
+        if e["d"] in ("m", "n"):          # "m" and "n": same size, same values, they differ only in which key carries None
+            data = {"v": "a", ("title" if e["d"] == "m" else "url"): None}
         ts = self.c.dt(e["ts"])          # an aware datetime at a random UTC offset ...
         if self.iso and (e["ts"] + len(data)) % 2 == 0:
             ts = ts.isoformat()          # ... or the same instant as an ISO string carrying that offset
@@ -42,7 +44,7 @@ class Cz:
         q1, r1 = divmod(e.timestamp - self.c.base, half)
         q2, r2 = divmod(e.duration - self.eps, half)
         z = timedelta(0)
-        out = {"ts": q1 if r1 == z else -99999, "dur": q2 if r2 == z else -99999, "d": "c" if "extra" in e.data else str(e.data.get("v", "?"))}
+        out = {"ts": q1 if r1 == z else -99999, "dur": q2 if r2 == z else -99999, "d": "c" if "extra" in e.data else ("m" if "title" in e.data else ("n" if "url" in e.data else str(e.data.get("v", "?"))))}
         if with_id:
             out["id"] = e.id if isinstance(e.id, int) else -2
         return out
@@ -57,7 +59,7 @@ def merge_cases(quick):
     ts = [0, 1, 2, 3]
     du = [-1, 0, 1, 2]
     for t1, d1, t2, d2 in itertools.product(ts, du, ts, du):
-        for da, db in (("a", "a"), ("a", "b"), ("a", "c"), ("c", "a")):
+        for da, db in (("a", "a"), ("a", "b"), ("a", "c"), ("c", "a"), ("m", "n"), ("m", "m")):
             for p2 in (0, 1, 2, 4):
                 yield {"ts": t1, "dur": d1, "d": da}, {"ts": t2, "dur": d2, "d": db}, p2
 
@@ -65,7 +67,7 @@ def merge_cases(quick):
 def list_cases(rnd, n, maxlen=4):
     for _ in range(n):
         k = rnd.randint(0, maxlen)
-        yield [{"ts": rnd.randrange(0, 5), "dur": rnd.choice([-1, 0, 0, 1, 2, 3]), "d": rnd.choice("aabc")} for _ in range(k)], rnd.choice([0, 1, 2, 4])
+        yield [{"ts": rnd.randrange(0, 5), "dur": rnd.choice([-1, 0, 0, 1, 2, 3]), "d": rnd.choice("aabcmn")} for _ in range(k)], rnd.choice([0, 1, 2, 4])
 
 
 def all_lists(maxlen):
@@ -138,6 +140,8 @@ def run_loop(ds, kind, rnd, uniq, stream, p2):
     cz.eps = timedelta(microseconds=rnd.choice([0, 0, 0, 4, 996, 500, 123]))
     cz.iso = rnd.random() < 0.4
     bn, sn = "hb-%s" % uniq, "hbspect-%s" % uniq
+    if rnd.random() < 0.4:
+        sn = bn.swapcase() if bn.swapcase() != bn else bn.upper()      # another bucket whose id differs only in letter case
     spect = ds.create_bucket(sn, "t", "c", "h")
     # the spectator shares start and end instants with the stream
     sev = [{"ts": 0, "dur": 2, "d": "s"}, {"ts": 2, "dur": 0, "d": "s"}, {"ts": 1, "dur": 4, "d": "s"}] + \
